@@ -15,7 +15,7 @@ LEVEL = "exploration"
 TECHNIQUE = "generated nested scope programs executed against an independent environment-stack reference model (differential)"
 RULE = (
     "cases are trees (depth<=5, <=12 blocks) of async scopes (with 0-3 disposables yielding none/one/several states), "
-    "sync scopes and ctx.updated blocks, each supplying 0-4 values of a 7-type family (defaultable, required-attribute, "
+    "sync scopes and ctx.updated blocks, each supplying 0-4 values of a 9-type family (defaultable, required-attribute, required union-typed attribute, falsy instances, "
     "subclass, generic specialisations), with probes before / inside / between siblings / after blocks; each probe runs a "
     "generated sequence of lookups with and without explicit default; non-trivial = some lookup decided by shadowing, by "
     "a non-innermost frame, by a disposable's state, or by the default/MissingState path after an earlier lookup of the "
